@@ -52,6 +52,10 @@ struct Scenario {
     args_first: bool,
     /// an existing output file is longer than anything the program writes (stale bytes must not survive)
     long_existing: bool,
+    /// an existing output file has exactly the length of the new output but other content
+    same_length_existing: bool,
+    /// after a successful run into a file, run again into the same file with changed options
+    rerun: bool,
     /// 0: `--opt=value`, 1: `--opt value`, 2: `-o value`
     arg_style: usize,
     /// file names with blanks and non-ASCII characters
@@ -101,6 +105,8 @@ fn decode(tapes: &Tapes) -> Scenario {
     let long_existing = m.chance(128);
     let arg_style = m.choose(3);
     let odd_names = m.chance(90);
+    let same_length_existing = m.chance(90);
+    let rerun = m.chance(110);
     let mut t = Tape::new(&tapes.a);
     let mut dom = Domain::general();
     dom.max_docs = 1;
@@ -122,7 +128,7 @@ fn decode(tapes: &Tapes) -> Scenario {
         InputKind::Empty => input = m.pick(&["", " ", "<!-- c -->", "text only"]).as_bytes().to_vec(),
         _ => {}
     }
-    Scenario { input_kind, input, parser, parser_short, derive, sort, output, args_first, long_existing, arg_style, odd_names }
+    Scenario { input_kind, input, parser, parser_short, derive, sort, output, args_first, long_existing, arg_style, odd_names, same_length_existing, rerun }
 }
 
 fn describe(s: &Scenario) -> Value {
@@ -162,7 +168,13 @@ fn run(s: &Scenario, dir: &Path) -> Result<(), String> {
         InputKind::Directory => std::fs::create_dir_all(&input_path).map_err(|e| format!("INFRA: {}", e))?,
         _ => std::fs::write(&input_path, &s.input).map_err(|e| format!("INFRA: {}", e))?,
     }
-    let old_content: Vec<u8> = if s.long_existing { b"// previous content of the output file\n".repeat(400) } else { b"// previous content\n".to_vec() };
+    let same_len: Option<Vec<u8>> = match (s.same_length_existing, library(s)) {
+        (true, Ok(r)) => Some(vec![b'#'; HEADER.len() + r.len()]),
+        _ => None,
+    };
+    let old_content: Vec<u8> = if let Some(g) = same_len {
+        g
+    } else if s.long_existing { b"// previous content of the output file\n".repeat(400) } else { b"// previous content\n".to_vec() };
     let old: &[u8] = &old_content;
     let out_path: Option<PathBuf> = match s.output {
         OutputKind::Stdout => None,
@@ -249,6 +261,44 @@ fn run(s: &Scenario, dir: &Path) -> Result<(), String> {
                 if got != expected.as_bytes() {
                     return Err(format!("output file is not header + library rendering:\n--- expected\n{}\n--- got\n{}", expected, String::from_utf8_lossy(&got)));
                 }
+                if s.rerun {
+                    // a second run into the same file with other options of (often) the same output length
+                    let mut s2 = s.clone();
+                    s2.rerun = false;
+                    s2.sort = match s.sort {
+                        Some("name") => Some("unsorted"),
+                        _ => Some("name"),
+                    };
+                    s2.derive = match s.derive.as_deref() {
+                        Some("Debug, Clone, PartialEq") => Some("Clone, Debug, PartialEq".to_string()),
+                        Some(d) => Some(d.chars().rev().collect()),
+                        None => Some("Deserialize, Serialize".to_string()),
+                    };
+                    let lib2 = library(&s2).map_err(|e| format!("INFRA second rendering failed: {}", e))?;
+                    let expected2 = format!("{}{}", HEADER, lib2);
+                    let mut cmd2 = std::process::Command::new(cli_path());
+                    cmd2.arg(format!("--sort={}", s2.sort.unwrap_or("unsorted"))).arg(format!("--derive={}", s2.derive.clone().unwrap_or_default()));
+                    if let Some(pp) = s.parser {
+                        cmd2.arg(format!("--parser={}", pp));
+                    }
+                    cmd2.arg(&input_path).arg(p).env_remove("RUST_LOG").current_dir(dir);
+                    let out2 = cmd2.output().map_err(|e| format!("INFRA cannot run cli: {}", e))?;
+                    if out2.status.code() != Some(0) {
+                        return Err(format!("second run into the same file failed: {:?} {}", out2.status.code(), String::from_utf8_lossy(&out2.stderr)));
+                    }
+                    let got2 = std::fs::read(p).map_err(|e| format!("output file unreadable after the second run: {}", e))?;
+                    if got2 != expected2.as_bytes() {
+                        return Err(format!(
+                            "after a second run into the same file with --sort={} --derive={:?} the file is not header + library rendering for those options ({} bytes expected, same length as before: {}):\n--- expected\n{}\n--- got\n{}",
+                            s2.sort.unwrap_or(""),
+                            s2.derive,
+                            expected2.len(),
+                            expected2.len() == expected.len(),
+                            expected2,
+                            String::from_utf8_lossy(&got2)
+                        ));
+                    }
+                }
             }
         }
         Ok(())
@@ -320,6 +370,12 @@ impl Property for C12 {
             st.count("file_names_with_blanks_and_non_ascii");
         }
         st.count(&format!("arg_style.{}", ["--opt=value", "--opt value", "-o value"][s.arg_style]));
+        if s.output == OutputKind::ExistingFile && s.same_length_existing && matches!(s.input_kind, InputKind::Valid) {
+            st.count("output.ExistingFile.same_length_other_content");
+        }
+        if s.rerun && matches!(s.output, OutputKind::NewFile | OutputKind::ExistingFile) && matches!(s.input_kind, InputKind::Valid) {
+            st.count("second_run_into_same_file");
+        }
         if s.output == OutputKind::ExistingFile && s.long_existing {
             st.count("output.ExistingFile.longer_than_new_output");
         }
@@ -334,7 +390,7 @@ impl Property for C12 {
         }
     }
     fn rule(&self) -> String {
-        "one process run of the freshly built CLI per case: input file in {generated valid document, byte-damaged UTF-8 document, non-UTF-8, missing, a directory, element-less} x --parser/-p in {default, quick-xml-de, serde-xml-rs} x --derive=<string from a list incl. empty, leading dashes, unicode, newline, shell metacharacters> or default x --sort in {default, unsorted, name} x output in {stdout, new file, existing file (short, or 15 KB and thus longer than the new output), path in a missing directory, path that is a directory, path below a regular file}, options before or after the positional arguments, written as `--opt=value`, `--opt value` or `-o value`, file names plain or with blanks and non-ASCII characters. Oracle: success = exit 0 and stdout (plus newline) or file bytes equal header + in-process library rendering with the mapped options, stdout empty when a file is named; failure = exit 1, empty stdout, non-empty stderr, named output untouched when the input was at fault. Non-trivial = any non-default option, an output file or a fault; distinct by hash of input bytes and arguments.".into()
+        "one process run of the freshly built CLI per case: input file in {generated valid document, byte-damaged UTF-8 document, non-UTF-8, missing, a directory, element-less} x --parser/-p in {default, quick-xml-de, serde-xml-rs} x --derive=<string from a list incl. empty, leading dashes, unicode, newline, shell metacharacters> or default x --sort in {default, unsorted, name} x output in {stdout, new file, existing file (short, 15 KB and thus longer than the new output, or garbage of exactly the new output's length), path in a missing directory, path that is a directory, path below a regular file}, options before or after the positional arguments, written as `--opt=value`, `--opt value` or `-o value`, file names plain or with blanks and non-ASCII characters. Four in ten successful file outputs are followed by a second run into the same file with the other sort order and a permuted derive list (often the same output length). Oracle: success = exit 0 and stdout (plus newline) or file bytes equal header + in-process library rendering with the mapped options, stdout empty when a file is named; failure = exit 1, empty stdout, non-empty stderr, named output untouched when the input was at fault. Non-trivial = any non-default option, an output file or a fault; distinct by hash of input bytes and arguments.".into()
     }
     fn assumptions(&self) -> Vec<String> {
         vec![
@@ -356,7 +412,9 @@ impl Property for C12 {
             ("input.Directory", 50),
             ("output.NewFile", 300),
             ("output.ExistingFile", 300),
-            ("output.ExistingFile.longer_than_new_output", 100),
+            ("output.ExistingFile.longer_than_new_output", 60),
+            ("output.ExistingFile.same_length_other_content", 60),
+            ("second_run_into_same_file", 150),
             ("output.MissingDir", 50),
             ("output.IsDirectory", 50),
             ("output.BelowRegularFile", 50),
